@@ -74,36 +74,74 @@ struct Params {
 /// batches -> matrices: (log size, width, opening point ids)
 #[derive(Clone, Debug)]
 struct Shape {
-    name: &'static str,
+    name: String,
     params: Params,
     batches: Vec<Vec<(usize, usize, Vec<usize>)>>,
 }
 
-fn shapes(thorough: bool) -> Vec<Shape> {
+fn shapes(thorough: bool, seed: u64) -> Vec<Shape> {
     let p = |log_blowup, log_final_poly_len, max_log_arity, num_queries, commit_pow, query_pow| Params { log_blowup, log_final_poly_len, max_log_arity, num_queries, commit_pow, query_pow };
     let mut v = vec![
-        Shape { name: "one matrix 2^3 w1, one point, binary folding", params: p(1, 0, 1, 1, 0, 0), batches: vec![vec![(3, 1, vec![0])]] },
-        Shape { name: "one matrix 2^3 w2, two points, pow bits", params: p(1, 0, 1, 2, 1, 1), batches: vec![vec![(3, 2, vec![0, 1])]] },
-        Shape { name: "same height, same point", params: p(1, 0, 1, 1, 0, 0), batches: vec![vec![(4, 1, vec![0]), (4, 2, vec![0])]] },
-        Shape { name: "same height, distinct single points", params: p(1, 0, 1, 1, 0, 0), batches: vec![vec![(4, 1, vec![0]), (4, 1, vec![1])]] },
-        Shape { name: "three heights with roll-ins, distinct points", params: p(1, 0, 1, 1, 0, 0), batches: vec![vec![(5, 1, vec![0]), (4, 1, vec![1]), (3, 1, vec![0])]] },
-        Shape { name: "two batches, mixed heights", params: p(2, 0, 1, 1, 0, 1), batches: vec![vec![(4, 1, vec![0, 1])], vec![(4, 2, vec![0]), (2, 1, vec![0])]] },
-        Shape { name: "arity 4 (log 2), final poly len 2", params: p(1, 1, 2, 1, 0, 0), batches: vec![vec![(5, 1, vec![0]), (3, 1, vec![0])]] },
-        Shape { name: "arity 8 then smaller, blowup 2", params: p(2, 0, 3, 1, 0, 0), batches: vec![vec![(5, 1, vec![0]), (4, 1, vec![1])]] },
-        Shape { name: "height-1 matrix next to taller ones", params: p(2, 0, 1, 1, 0, 0), batches: vec![vec![(0, 2, vec![0]), (3, 1, vec![0]), (4, 1, vec![0])]] },
-        Shape { name: "height-1 and height-2 matrices, distinct points", params: p(1, 0, 1, 1, 0, 0), batches: vec![vec![(0, 1, vec![0]), (1, 1, vec![1]), (3, 2, vec![0])]] },
-        Shape { name: "arity 16", params: p(1, 0, 4, 1, 0, 0), batches: vec![vec![(5, 1, vec![0])]] },
-        Shape { name: "arity 32", params: p(1, 0, 5, 1, 0, 0), batches: vec![vec![(6, 1, vec![0])]] },
+        Shape { name: "one matrix 2^3 w1, one point, binary folding".to_string(), params: p(1, 0, 1, 1, 0, 0), batches: vec![vec![(3, 1, vec![0])]] },
+        Shape { name: "one matrix 2^3 w2, two points, pow bits".to_string(), params: p(1, 0, 1, 2, 1, 1), batches: vec![vec![(3, 2, vec![0, 1])]] },
+        Shape { name: "same height, same point".to_string(), params: p(1, 0, 1, 1, 0, 0), batches: vec![vec![(4, 1, vec![0]), (4, 2, vec![0])]] },
+        Shape { name: "same height, distinct single points".to_string(), params: p(1, 0, 1, 1, 0, 0), batches: vec![vec![(4, 1, vec![0]), (4, 1, vec![1])]] },
+        Shape { name: "three heights with roll-ins, distinct points".to_string(), params: p(1, 0, 1, 1, 0, 0), batches: vec![vec![(5, 1, vec![0]), (4, 1, vec![1]), (3, 1, vec![0])]] },
+        Shape { name: "two batches, mixed heights".to_string(), params: p(2, 0, 1, 1, 0, 1), batches: vec![vec![(4, 1, vec![0, 1])], vec![(4, 2, vec![0]), (2, 1, vec![0])]] },
+        Shape { name: "arity 4 (log 2), final poly len 2".to_string(), params: p(1, 1, 2, 1, 0, 0), batches: vec![vec![(5, 1, vec![0]), (3, 1, vec![0])]] },
+        Shape { name: "arity 8 then smaller, blowup 2".to_string(), params: p(2, 0, 3, 1, 0, 0), batches: vec![vec![(5, 1, vec![0]), (4, 1, vec![1])]] },
+        Shape { name: "height-1 matrix next to taller ones".to_string(), params: p(2, 0, 1, 1, 0, 0), batches: vec![vec![(0, 2, vec![0]), (3, 1, vec![0]), (4, 1, vec![0])]] },
+        Shape { name: "height-1 and height-2 matrices, distinct points".to_string(), params: p(1, 0, 1, 1, 0, 0), batches: vec![vec![(0, 1, vec![0]), (1, 1, vec![1]), (3, 2, vec![0])]] },
+        Shape { name: "arity 16".to_string(), params: p(1, 0, 4, 1, 0, 0), batches: vec![vec![(5, 1, vec![0])]] },
+        Shape { name: "arity 32".to_string(), params: p(1, 0, 5, 1, 0, 0), batches: vec![vec![(6, 1, vec![0])]] },
     ];
     if thorough {
         v.extend([
-            Shape { name: "arity 32 then 2", params: p(1, 0, 5, 2, 0, 0), batches: vec![vec![(7, 1, vec![0]), (3, 1, vec![0])]] },
-            Shape { name: "arity 8, final poly len 4, three matrices same height, 3 points", params: p(1, 2, 3, 2, 1, 1), batches: vec![vec![(6, 2, vec![0]), (6, 1, vec![1]), (6, 1, vec![2]), (4, 1, vec![0, 1])]] },
-            Shape { name: "two batches same heights distinct points", params: p(1, 0, 2, 1, 0, 0), batches: vec![vec![(5, 1, vec![0])], vec![(5, 1, vec![1]), (5, 2, vec![1])]] },
-            Shape { name: "wide matrix w5, two points", params: p(1, 0, 1, 1, 0, 0), batches: vec![vec![(3, 5, vec![0, 1])]] },
-            Shape { name: "blowup 3, arity 4, heights 6/5/4/3", params: p(3, 1, 2, 1, 0, 0), batches: vec![vec![(6, 1, vec![0]), (5, 1, vec![1]), (4, 1, vec![0]), (3, 1, vec![1])]] },
-            Shape { name: "arity 16 with roll-in inside a fold", params: p(1, 0, 4, 1, 0, 0), batches: vec![vec![(6, 1, vec![0]), (4, 1, vec![0]), (3, 1, vec![1])]] },
+            Shape { name: "arity 32 then 2".to_string(), params: p(1, 0, 5, 2, 0, 0), batches: vec![vec![(7, 1, vec![0]), (3, 1, vec![0])]] },
+            Shape { name: "arity 8, final poly len 4, three matrices same height, 3 points".to_string(), params: p(1, 2, 3, 2, 1, 1), batches: vec![vec![(6, 2, vec![0]), (6, 1, vec![1]), (6, 1, vec![2]), (4, 1, vec![0, 1])]] },
+            Shape { name: "two batches same heights distinct points".to_string(), params: p(1, 0, 2, 1, 0, 0), batches: vec![vec![(5, 1, vec![0])], vec![(5, 1, vec![1]), (5, 2, vec![1])]] },
+            Shape { name: "wide matrix w5, two points".to_string(), params: p(1, 0, 1, 1, 0, 0), batches: vec![vec![(3, 5, vec![0, 1])]] },
+            Shape { name: "blowup 3, arity 4, heights 6/5/4/3".to_string(), params: p(3, 1, 2, 1, 0, 0), batches: vec![vec![(6, 1, vec![0]), (5, 1, vec![1]), (4, 1, vec![0]), (3, 1, vec![1])]] },
+            Shape { name: "arity 16 with roll-in inside a fold".to_string(), params: p(1, 0, 4, 1, 0, 0), batches: vec![vec![(6, 1, vec![0]), (4, 1, vec![0]), (3, 1, vec![1])]] },
         ]);
+    }
+    // seeded random shapes (those the real prover refuses are skipped by the caller)
+    use rand::RngExt;
+    let mut rng = SmallRng::seed_from_u64(seed.wrapping_mul(31).wrapping_add(7));
+    let n_random = if thorough { 40 } else { 6 };
+    for k in 0..n_random {
+        let log_blowup = rng.random_range(1..=2usize);
+        let log_final_poly_len = rng.random_range(0..=1usize);
+        let max_log_arity = rng.random_range(1..=4usize);
+        let num_queries = rng.random_range(1..=2usize);
+        let n_batches = rng.random_range(1..=2usize);
+        let n_points = rng.random_range(1..=3usize);
+        let min_log = if log_final_poly_len > 0 { log_final_poly_len + 1 } else { 0 };
+        let batches: Vec<Vec<(usize, usize, Vec<usize>)>> = (0..n_batches)
+            .map(|_| {
+                let n_m = rng.random_range(1..=3usize);
+                (0..n_m)
+                    .map(|_| {
+                        let ls = rng.random_range(min_log..=5usize);
+                        let w = rng.random_range(1..=3usize);
+                        let np = rng.random_range(1..=2usize.min(n_points));
+                        let mut pts: Vec<usize> = Vec::new();
+                        while pts.len() < np {
+                            let c = rng.random_range(0..n_points);
+                            if !pts.contains(&c) {
+                                pts.push(c);
+                            }
+                        }
+                        (ls, w, pts)
+                    })
+                    .collect()
+            })
+            .collect();
+        // point ids must be dense from 0
+        let used: BTreeSet<usize> = batches.iter().flatten().flat_map(|m| m.2.iter().copied()).collect();
+        let remap: HashMap<usize, usize> = used.iter().enumerate().map(|(i, p)| (*p, i)).collect();
+        let batches = batches.into_iter().map(|b| b.into_iter().map(|(ls, w, pts)| (ls, w, pts.into_iter().map(|p| remap[&p]).collect())).collect()).collect();
+        v.push(Shape { name: format!("random shape #{k}"), params: p(log_blowup, log_final_poly_len, max_log_arity, num_queries, rng.random_range(0..=1usize), rng.random_range(0..=1usize)), batches });
     }
     v
 }
@@ -449,7 +487,7 @@ fn main() {
     let budget = std::time::Duration::from_secs(if thorough { 240 } else { 25 });
     let mut violations: Vec<Value> = Vec::new();
     let mut solver = Solver::new(SolverKind::Z3, P, 5_000);
-    let all = shapes(thorough);
+    let all = shapes(thorough, args.seed);
     let filter = std::env::var("VERIF_FILTER").ok();
     let mut n_prog = 0usize;
     for (job, shape) in all.iter().enumerate() {
@@ -458,7 +496,16 @@ fn main() {
                 continue;
             }
         }
-        let setup = make_setup(shape, args.seed);
+        let setup = match std::panic::catch_unwind(std::panic::AssertUnwindSafe(|| make_setup(shape, args.seed))) {
+            Ok(s) => s,
+            Err(_) => {
+                // the real prover / native verifier refuses this parameter combination
+                if job % args.nshards == args.shard {
+                    sh.bump("c07.shapes_refused_by_the_real_prover");
+                }
+                continue;
+            }
+        };
         let label = format!("{} | params {:?} | batches {:?}", shape.name, shape.params, shape.batches);
         let mine = job % args.nshards == args.shard;
         let honest = run_once(&setup, None, None);
